@@ -33,6 +33,9 @@ CONTROLS: List[Tuple[str, str, str, str, Callable[[Program], list], str]] = [
     ("R-TOL", "math", "",
      "def _vp_ctl_tol(x, tol=1e-6):\n    from math import isclose\n    return isclose(x, round(x), abs_tol=tol)\n",
      lambda p: generic.rule_isclose(p, {"math"}), "_vp_ctl_tol#isclose"),
+    ("R-PRECISION", "roi", "",
+     "def _vp_ctl_prec(a, b, n):\n    import numpy as np\n    return np.linspace(a, b, n, dtype='float32')\n",
+     lambda p: generic.rule_precision(p, {"roi"}), "_vp_ctl_prec#single"),
     ("R-ABSEPS", "geobox", "GeoBox",
      "def _vp_ctl_abseps(self):\n    return self._affine.is_rectilinear\n",
      lambda p: generic.rule_abseps(p, {"geobox"}), "_vp_ctl_abseps#abs-eps"),
